@@ -85,9 +85,12 @@ def desired_allocs(op, c):
     a = body['allocations']
     out = []
     if isinstance(a, list):
+        last = {}
         for item in a:
-            for rc, n in item['resources'].items():
-                out.append((item['resource_provider']['uuid'], rc, n))
+            last[item['resource_provider']['uuid']] = item['resources']
+        for rp, res in last.items():
+            for rc, n in res.items():
+                out.append((rp, rc, n))
     else:
         for rp, d in a.items():
             for rc, n in d['resources'].items():
@@ -246,6 +249,8 @@ class ConcRun(object):
             self.gen = None
             return True
         rng = self.rng
+        if self.focus == 'bigpost':
+            return self._setup_bigpost(sim)
         self.gen = workload.Gen(
             rng, n_providers=rng.choice([2, 3, 4]),
             n_consumers=rng.choice([2, 3, 4]),
@@ -299,10 +304,89 @@ class ConcRun(object):
                 self.model.adopt(dump.natural(w))
         return True
 
+    # -- one request rewriting more than a hundred consumers -------------
+    def _big_body(self, c, amount, v):
+        cur = self.model.consumers.get(c)
+        b = {'project_id': 'proj-0', 'user_id': 'user-0',
+             'consumer_generation': None if cur is None
+             else cur['generation'],
+             'allocations': {self.big_rp: {'resources': {'VCPU': amount}}}}
+        if M.ver(v) >= (1, 38):
+            b['consumer_type'] = 'INSTANCE'
+        return b
+
+    def _setup_bigpost(self, sim):
+        from psim import scale
+        rng = self.rng
+        w = self.world
+        self.gen = workload.Gen(rng, n_providers=1, n_consumers=1)
+        n = rng.choice([101, 104, 130])
+        self.big_rp = u = workload.puuid(0)
+        self.big_v = v = rng.choice(['1.28', '1.34', '1.38', '1.39'])
+        self.big_cons = cons = [scale.C(i) for i in range(n)]
+        ops = [
+            {'m': 'POST', 'p': '/resource_providers', 'v': '1.39',
+             'b': {'name': 'big', 'uuid': u}, 'kind': 'rp_create'},
+            {'m': 'PUT', 'p': '/resource_providers/%s/inventories' % u,
+             'v': '1.39', 'kind': 'inv_put_all',
+             'b': {'resource_provider_generation': 0, 'inventories': {
+                 'VCPU': {'total': 4 * n + rng.choice([0, 1, 50]),
+                          'max_unit': 4 * n}}}},
+        ]
+        for op in ops:
+            exp = self.model.apply(op)
+            r = self._req(sim, op)
+            self.setup_ops.append(workload.op_brief(op))
+            if r.status != exp.status:
+                return False
+            self.model.adopt(dump.natural(w))
+        op = {'m': 'POST', 'p': '/allocations', 'v': v, 'kind': 'alloc_post',
+              'b': {c: self._big_body(c, 1, v) for c in cons}}
+        exp = self.model.apply(op)
+        r = self._req(sim, op)
+        self.setup_ops.append(workload.op_brief(op))
+        if r.status != exp.status:
+            return False
+        self.model.adopt(dump.natural(w))
+        return True
+
+    def _batch_bigpost(self):
+        rng = self.rng
+        v = self.big_v
+        cons = self.big_cons
+        amount = rng.choice([2, 3])
+        if rng.random() < 0.25:
+            big = {c: dict(self._big_body(c, amount, v), allocations={})
+                   for c in cons}     # everybody is emptied
+        else:
+            big = {c: self._big_body(c, amount, v) for c in cons}
+        batch = [{'m': 'POST', 'p': '/allocations', 'v': v,
+                  'kind': 'alloc_post', 'b': big}]
+        n_small = rng.choice([1, 1, 2])
+        where = [rng.randrange(0, 100), rng.randrange(0, len(cons)),
+                 len(cons) - 1]
+        for i in range(n_small):
+            c = cons[where[(i + rng.randrange(3)) % 3] if i else
+                     rng.choice(where[:2])]
+            if rng.random() < 0.8:
+                batch.append({'m': 'PUT', 'p': '/allocations/' + c, 'v': v,
+                              'kind': 'alloc_put',
+                              'b': self._big_body(c, 4, v)})
+            else:
+                batch.append({'m': 'POST', 'p': '/allocations', 'v': v,
+                              'kind': 'alloc_post',
+                              'b': {c: dict(self._big_body(c, 4, v),
+                                            allocations={})}})
+        if rng.random() < 0.5:
+            batch.reverse()
+        return batch
+
     def gen_batch(self):
         rng = self.rng
         g = self.gen
         m = self.model
+        if self.focus == 'bigpost':
+            return self._batch_bigpost()
         n = self.n_batch or rng.choice([2, 2, 2, 3])
         g.invalid_rate = 0.2
         ex = g.existing_p(m)
@@ -627,7 +711,25 @@ class ConcRun(object):
                 'switches': self.switches,
                 'new': sig not in seen_sigs})
             seen_sigs.add(sig)
-            if self.enumerate_targeted and n_done == 1:
+            if self.focus == 'bigpost' and n_done == 1 and \
+                    self.fixed_schedule is None:
+                # hundreds of transactions per request: park each request
+                # before its first, a middle and each of its last
+                # transactions, the others run meanwhile
+                n = len(batch)
+                for a in range(n):
+                    others = [i for i in range(n) if i != a]
+                    nt = tasks[a].ntxn
+                    ks = sorted(set(k for k in (
+                        0, 1, nt // 2, nt - 3, nt - 2, nt - 1, nt)
+                        if 0 <= k <= nt))
+                    tg = []
+                    for k in ks:
+                        tg.append(('targeted', a, k, list(others)))
+                    strategies = tg + strategies
+                strategies = strategies[:14]
+            if self.enumerate_targeted and n_done == 1 and \
+                    self.focus != 'bigpost':
                 # every single-pre-emption schedule: park a before its k-th
                 # transaction, run the others (both orders), resume a
                 n = len(batch)
